@@ -19,6 +19,15 @@ from .. import flow
 
 
 
+def _anc(node, fn):
+    out = []
+    p = getattr(node, '_parent', None)
+    while p is not None and p is not fn:
+        out.append(p)
+        p = getattr(p, '_parent', None)
+    return out
+
+
 def run(prog, rep):
     rep.extra['explanation'] = (
         'All queries over the shared store are parsed and required to carry an eq-conjunct on GraphID with the graph id of '
@@ -95,6 +104,44 @@ def run(prog, rep):
                           f'the same id (or importing under an id that was only looked up) yields an empty graph on this store '
                           f'while the shared store imports it')
 
+    # a rejected import changes nothing: inside the storage add_graph methods no rejection is reachable once the store has
+    # been changed (in particular the graph already stored under the id is only removed when the new one is known to be good)
+    from ..cfg import CFG
+    STORE_MUT = ('remove_nodes_from', 'add_nodes_from', 'add_edges_from', 'clear', 'remove_node', 'add_node')
+    for shell_ in (nxg.SHARED_SHELL, nxg.DISJ_SHELL):
+        st_ = nxg.storage_class(prog, shell_)
+        for mname in ('add_graph', 'add_graph_direct'):
+            f0 = st_.methods.get(mname)
+            if f0 is None:
+                continue
+            fi = nxg.method(prog, st_, f0)
+            fcfg = CFG(fi)
+            muts = []
+            for c in walk_no_nested(fi):
+                if isinstance(c, ast.Call) and call_name(c) in STORE_MUT and isinstance(c.func, ast.Attribute) and \
+                        ast.unparse(c.func.value).startswith('self.graphs'):
+                    muts.append(c)
+                if isinstance(c, ast.Assign) and any(isinstance(t, ast.Subscript) and ast.unparse(t.value) == 'self.graphs' for t in c.targets):
+                    muts.append(c)
+            raises = [r for r in walk_no_nested(fi) if isinstance(r, ast.Raise) and r.exc is not None and
+                      not any(isinstance(p_, ast.ExceptHandler) for p_ in _anc(r, fi))]
+            bad = None
+            for m_ in muts:
+                mn = flow.node_of(fcfg, m_)
+                for r in raises:
+                    rn = flow.node_of(fcfg, r)
+                    if mn is not None and rn is not None and mn is not rn and fcfg.paths_avoiding(mn, rn, set()):
+                        bad = (m_, r)
+                        break
+                if bad:
+                    break
+            rep.instance('R3', f'{st_.name}.{mname}: {len(muts)} store mutation(s), {len(raises)} rejection(s); a rejection is reachable after a mutation: {bool(bad)}')
+            if bad:
+                rep.violation('R3', loc(st_.module, bad[0]), f'{st_.name}.{mname}', f'{norm(bad[0], 60)} precedes a rejection',
+                              f'the store is changed by `{norm(bad[0], 60)}` and the import can still be rejected afterwards (`{norm(bad[1], 70)}`): '
+                              f're-importing under an id in use with a graph that is refused (a node without NodeID) destroys the graph that was '
+                              f'stored under that id although nothing is imported')
+
     # ---- R4 ----
     nxpg = prog.cls(nxg.NXPG)
     cg = nxpg.methods.get('clone_graph')
@@ -155,6 +202,9 @@ def run(prog, rep):
 
 NX = 'fim/graph/networkx_property_graph.py'
 MUTANTS = [
+    {'name': 'existing-graph-deleted-before-validation', 'file': 'fim/graph/networkx_property_graph.py', 'rule': 'R3',
+     'find': "                # relabel incoming graph nodes to integers, then merge\n                temp_graph = nx.convert_node_labels_to_integers(graph, first_label=self.start_id)\n                # set/overwrite GraphID property on all nodes\n",
+     'replace': "                self.__del_graph_nl(graph_id)\n                temp_graph = nx.convert_node_labels_to_integers(graph, first_label=self.start_id)\n"},
     {'name': 'find-all-nodes-unscoped', 'file': 'fim/graph/networkx_mixin.py', 'rule': 'R1',
      'find': "                                            {'eq': [ABCPropertyGraph.GRAPH_ID, self.graph_id]}))\n        if len(query_match) == 0:\n            raise PropertyGraphQueryException(graph_id=self.graph_id, node_id=None,\n                                              msg=\"Unable to find graph nodes\")",
      'replace': "                                            {'eq': [ABCPropertyGraph.PROP_CLASS, 'NetworkNode']}))\n        if len(query_match) == 0:\n            raise PropertyGraphQueryException(graph_id=self.graph_id, node_id=None,\n                                              msg=\"Unable to find graph nodes\")"},
